@@ -32,6 +32,11 @@ type pkgInfo struct {
 	files   map[string]*ast.File
 	globals map[string]bool
 	topSpec map[*ast.ValueSpec]bool
+	// asynchrony rewriting (see async.go)
+	chanFields map[string]bool // struct fields of channel type declared in this package
+	chans      map[string]bool // identifiers of channel type visible in the function being rewritten
+	changed    int             // rewrites other than yield sites in the current file
+	tmp        int
 }
 
 func main() {
@@ -72,11 +77,11 @@ func main() {
 	}
 	sort.Strings(dirs)
 	site := 0
-	nFiles, nYields := 0, 0
+	nFiles, nYields, nAsync := 0, 0, 0
 	var sites []string
 	for _, dir := range dirs {
 		ents, _ := os.ReadDir(dir)
-		pi := &pkgInfo{dir: dir, files: map[string]*ast.File{}, globals: map[string]bool{}, topSpec: map[*ast.ValueSpec]bool{}}
+		pi := &pkgInfo{dir: dir, files: map[string]*ast.File{}, globals: map[string]bool{}, topSpec: map[*ast.ValueSpec]bool{}, chanFields: map[string]bool{}, chans: map[string]bool{}}
 		for _, e := range ents {
 			n := e.Name()
 			if e.IsDir() || !strings.HasSuffix(n, ".go") || strings.HasSuffix(n, "_test.go") {
@@ -117,6 +122,9 @@ func main() {
 				}
 			}
 		}
+		for _, f := range pi.files {
+			pi.collectChanFields(f)
+		}
 		paths := make([]string, 0, len(pi.files))
 		for p := range pi.files {
 			paths = append(paths, p)
@@ -125,6 +133,7 @@ func main() {
 		for _, path := range paths {
 			f := pi.files[path]
 			before := site
+			pi.changed = 0
 			for _, d := range f.Decls {
 				fd, ok := d.(*ast.FuncDecl)
 				if !ok || fd.Body == nil {
@@ -134,9 +143,10 @@ func main() {
 					sites = append(sites, fmt.Sprintf("%d %s", s, fset.Position(pos)))
 				})
 			}
-			if site == before {
+			if site == before && pi.changed == 0 {
 				continue
 			}
+			nAsync += pi.changed
 			addImport(f)
 			var buf bytes.Buffer
 			if err := format.Node(&buf, fset, f); err != nil {
@@ -155,12 +165,19 @@ func main() {
 			nYields += site - before
 		}
 	}
+	// the marker file that tells the simulator it runs against rewritten sources
+	marker := filepath.Join(*out, "internal/verifyield/instrumented.go")
+	_ = os.MkdirAll(filepath.Dir(marker), 0o755)
+	if err := os.WriteFile(marker, []byte("package verifyield\n\nfunc init() { Instrumented = true }\n"), 0o644); err != nil {
+		fatal(err)
+	}
+	overlay["Replace"][filepath.Join(*repo, "internal/verifyield/instrumented.go")] = marker
 	b, _ := json.MarshalIndent(overlay, "", " ")
 	if err := os.WriteFile(*ovOut, b, 0o644); err != nil {
 		fatal(err)
 	}
 	_ = os.WriteFile(filepath.Join(*out, "sites.txt"), []byte(strings.Join(sites, "\n")+"\n"), 0o644)
-	fmt.Printf("instrumented %d files, %d yield sites\n", nFiles, nYields)
+	fmt.Printf("instrumented %d files, %d yield sites, %d goroutine/blocking-operation rewrites\n", nFiles, nYields, nAsync)
 }
 
 func fatal(err error) {
@@ -190,26 +207,37 @@ func isImmutableInit(e ast.Expr) bool {
 	return false
 }
 
+// usesWait: functions that use a condition variable (Wait together with Lock) or TryLock are
+// left alone: a task woken inside Wait holds the lock again and cannot be parked.
 func usesWait(body *ast.BlockStmt) bool {
-	found := false
+	wait, lock, try := false, false, false
 	ast.Inspect(body, func(n ast.Node) bool {
 		if c, ok := n.(*ast.CallExpr); ok {
-			if s, ok := c.Fun.(*ast.SelectorExpr); ok && (s.Sel.Name == "Wait" || s.Sel.Name == "TryLock" || s.Sel.Name == "TryRLock") {
-				if len(c.Args) == 0 {
-					found = true
+			if s, ok := c.Fun.(*ast.SelectorExpr); ok && len(c.Args) == 0 {
+				switch s.Sel.Name {
+				case "Wait":
+					wait = true
+				case "Lock", "RLock":
+					lock = true
+				case "TryLock", "TryRLock":
+					try = true
 				}
 			}
 		}
-		return !found
+		return true
 	})
-	return found
+	return try || (wait && lock)
 }
 
 func (p *pkgInfo) instrumentFunc(body *ast.BlockStmt, site *int, note func(int, token.Pos)) {
 	if usesWait(body) {
 		return // condition variables and TryLock: leave the function alone
 	}
+	saved := p.chans
+	p.chans = p.chansOf(body, saved)
+	p.wrapAfterFunc(body)
 	p.instrumentBlock(&body.List, site, note)
+	p.chans = saved
 }
 
 // lockCall classifies a statement that is exactly one call X.Lock()/X.RLock()/X.Unlock()/
@@ -302,7 +330,7 @@ func (p *pkgInfo) instrumentBlock(list *[]ast.Stmt, site *int, note func(int, to
 			yield(st.Pos())
 		}
 		p.descend(st, site, note)
-		out = append(out, st)
+		out = append(out, p.rewriteAsync(st)...)
 	}
 	*list = out
 }
